@@ -135,6 +135,9 @@ func applyFormatOptions(opts []FormatOption) formatOptions {
 	for _, opt := range opts {
 		opt(&o)
 	}
+	if o.separator == "" {
+		o.separator = ":"
+	}
 	return o
 }
 
